@@ -2,6 +2,10 @@
 //!
 //! Case input:   (idl x<text>)
 //!               (idl-deep <nesting depth> x<text>)   deterministic deep-nesting family (C12)
+//!               (idl-lim x<text>)                    parsed on the calling thread while the process's
+//!                                                    address-space limit (soft RLIMIT_AS) is its current size
+//!                                                    + 48 MiB: parsing a small text needs a few KiB and must
+//!                                                    not depend on large new mappings / new threads
 //!
 //! Every parse runs on a worker thread under a per-case deadline (DEADLINE_MS); a parse that does
 //! not come back is observed as `(timeout <ms>)` (C12: parsing terminates in time proportional to the
@@ -17,6 +21,7 @@
 //!   (idl-error x<message> x<to_string()>)
 //!   (panic x<msg>)
 //!   (timeout <deadline ms>) | (skipped)
+//!   (display-panic parse|idl <column> x<msg>)       to_string() of the error value panicked
 //!   type   = bool | int | float | string | object | (n x<typename>) | <struct> | <enum>
 //!          | (a type) | (d type) | (o type)
 //!   struct = (s (x<field> type)*)        enum = (e x<field>*)
@@ -106,7 +111,17 @@ pub fn observe(text: &str) -> Sx {
         Ok(idl) => dump_idl(&idl, text),
         Err(e) => {
             // rendering the error is part of the observation (C12: every error can be displayed)
-            let shown = e.to_string();
+            let shown = match std::panic::catch_unwind(std::panic::AssertUnwindSafe(|| e.to_string())) {
+                Ok(s) => s,
+                Err(p) => {
+                    let msg = p.downcast_ref::<String>().cloned().or_else(|| p.downcast_ref::<&str>().map(|s| s.to_string())).unwrap_or_default();
+                    let (kind, col) = match &e {
+                        Error::Parse { column, .. } => ("parse", *column),
+                        Error::Idl(_) => ("idl", 0),
+                    };
+                    return sx::tagged("display-panic", vec![sx::atom(kind), sx::nat(col), sx::xs(&msg)]);
+                }
+            };
             match e {
                 Error::Parse { line, column } => {
                     sx::tagged("parse-error", vec![sx::nat(column), sx::xs(&line), sx::xs(&shown)])
@@ -762,6 +777,92 @@ fn gen_c11(ctx: &Ctx, rng: &mut Rng, cases: &mut Vec<Case>) {
         let text = decorate(rng, &render_idl(&g), style).concat();
         cases.push(case_of(&text, &["dup-random"]));
     }
+    // (5b) identifiers are ASCII: a non-ASCII letter / digit / mark substituted or inserted at every
+    //      identifier position class must be rejected (Unicode-aware classes are wider)
+    let uni: &[char] = &[
+        '\u{f6}', '\u{df}', '\u{e9}', '\u{f1}', '\u{c4}', '\u{b2}', '\u{b3}', '\u{b9}', '\u{aa}', '\u{b5}', '\u{430}', '\u{410}',
+        '\u{391}', '\u{3bf}', '\u{ff10}', '\u{ff15}', '\u{663}', '\u{1c5}', '\u{2167}', '\u{ff46}', '\u{ff21}', '\u{301}', '\u{308}',
+        '\u{1d400}', '\u{4e2d}', '\u{5d0}', '\u{e01}', '\u{2460}', '\u{bd}', '\u{1f600}', '\u{203f}', '\u{200d}', '\u{ad}',
+    ];
+    let slots: &[(&str, &str)] = &[
+        ("interface a@b.c\nmethod F() -> ()", "iface-label"),
+        ("interface a.b@\nmethod F() -> ()", "iface-label"),
+        ("interface @a.b\nmethod F() -> ()", "iface-label"),
+        ("interface a.@b\nmethod F() -> ()", "iface-label"),
+        ("interface a.b\ntype T@a ()", "member-name"),
+        ("interface a.b\ntype Ta@ ()", "member-name"),
+        ("interface a.b\ntype @Ta ()", "member-name"),
+        ("interface a.b\nmethod M@x() -> ()", "member-name"),
+        ("interface a.b\nmethod Mx@() -> ()", "member-name"),
+        ("interface a.b\nerror E@x ()", "member-name"),
+        ("interface a.b\nerror Ex@ ()", "member-name"),
+        ("interface a.b\ntype T (f@g: int)", "field-name"),
+        ("interface a.b\ntype T (fg@: int)", "field-name"),
+        ("interface a.b\ntype T (@fg: int)", "field-name"),
+        ("interface a.b\ntype T (f_@: int)", "field-name"),
+        ("interface a.b\nmethod M(a: int) -> (r@s: int)", "field-name"),
+        ("interface a.b\ntype T (a@b, c)", "enum-value"),
+        ("interface a.b\ntype T (a, c@)", "enum-value"),
+        ("interface a.b\ntype T (a, @c)", "enum-value"),
+        ("interface a.b\ntype T (x: Fo@o)", "type-reference"),
+        ("interface a.b\ntype T (x: Foo@)", "type-reference"),
+        ("interface a.b\ntype T (x: @Foo)", "type-reference"),
+        ("interface a.b\ntype T (x: ?[]Fo@o, y: [string]Ba@r)", "type-reference"),
+        ("interface a.b\nmethod M() -> (x: Fo@)", "type-reference"),
+    ];
+    for (tpl, tag) in slots {
+        for &u in uni {
+            // inserted
+            cases.push(case_of(&tpl.replacen('@', &u.to_string(), 1).replace('@', ""), &["unicode-ident", &format!("unicode-ident:{}", tag)]));
+            // substituted for the neighbouring ASCII character (the one before the slot, or after it at the start)
+            let i = tpl.find('@').unwrap();
+            let mut sub = String::new();
+            let before = tpl[..i].chars().last();
+            if before.map_or(false, |c| c.is_ascii_alphanumeric()) {
+                let cut = i - before.unwrap().len_utf8();
+                sub.push_str(&tpl[..cut]);
+                sub.push(u);
+                sub.push_str(&tpl[i + 1..]);
+            } else {
+                sub.push_str(&tpl[..i]);
+                sub.push(u);
+                let mut rest = tpl[i + 1..].chars();
+                rest.next();
+                sub.push_str(rest.as_str());
+            }
+            cases.push(case_of(&sub.replace('@', ""), &["unicode-ident", &format!("unicode-ident:{}", tag)]));
+        }
+    }
+    // (5c) white space is the grammar's set: every Unicode White_Space character and the usual
+    //      invisible look-alikes as a separator at every separator position
+    let blanks: &[char] = &[
+        '\u{9}', '\u{a}', '\u{b}', '\u{c}', '\u{d}', '\u{20}', '\u{85}', '\u{a0}', '\u{1680}', '\u{180e}', '\u{2000}', '\u{2001}',
+        '\u{2002}', '\u{2003}', '\u{2004}', '\u{2005}', '\u{2006}', '\u{2007}', '\u{2008}', '\u{2009}', '\u{200a}', '\u{200b}',
+        '\u{200c}', '\u{200d}', '\u{200e}', '\u{2028}', '\u{2029}', '\u{202f}', '\u{205f}', '\u{2060}', '\u{3000}', '\u{feff}',
+        '\u{1c}', '\u{1d}', '\u{1e}', '\u{1f}', '\u{0}', '\u{7f}', '\u{ad}', '\u{61c}', '\u{115f}', '\u{3164}', '\u{ffa0}', '\u{2800}',
+    ];
+    let seps: &[&str] = &[
+        "interface@a.b\nmethod F() -> ()",
+        "interface a.b@method F() -> ()",
+        "interface a.b\ntype@T ()",
+        "interface a.b\ntype T@()",
+        "interface a.b\ntype T (@a: int)",
+        "interface a.b\ntype T (a@: int)",
+        "interface a.b\ntype T (a:@int)",
+        "interface a.b\ntype T (a: int@)",
+        "interface a.b\ntype T (a: int,@b: int)",
+        "interface a.b\ntype T (a,@b)",
+        "interface a.b\nmethod F()@->@()",
+        "interface a.b\nmethod F() -> ()@type T ()",
+        "interface a.b\nmethod F() -> ()@",
+        "@interface a.b\nmethod F() -> ()",
+        "interface a.b\n#c@type T ()",
+    ];
+    for tpl in seps {
+        for &b in blanks {
+            cases.push(case_of(&tpl.replace('@', &b.to_string()), &["unicode-blank"]));
+        }
+    }
     // (6) nesting through every type constructor (accept/reject judged by the specification's recogniser)
     let mut deep: Vec<(usize, String, &'static str)> = Vec::new();
     let depths: Vec<usize> = if ctx.thorough { vec![1, 2, 3, 4, 6, 8, 12, 16, 24, 32, 64] } else { vec![1, 2, 3, 5, 8, 16, 32] };
@@ -978,6 +1079,56 @@ fn gen_c12(ctx: &Ctx, rng: &mut Rng, cases: &mut Vec<Case>) {
             tags: vec!["nesting".into(), tag.to_string()],
         });
     }
+    // (5b) long lines: error columns around and beyond 65535 (a 16-bit formatting width), also with
+    //      multi-byte characters on the line (byte offset != column)
+    let cols: Vec<usize> = if ctx.thorough {
+        vec![255, 256, 257, 4095, 32767, 32768, 65533, 65534, 65535, 65536, 65537, 70000, 131072, 200000]
+    } else {
+        vec![255, 256, 65534, 65535, 65536, 70000, 200000]
+    };
+    for c in cols {
+        // error column c: the '!' is the c-th character of its line
+        let fill = |n: usize| -> String { std::iter::repeat('x').take(n).collect() };
+        if c <= 70000 {
+            // `type T (a<xs>: !)` — the reproducer of C12-F1 (a long field name)
+            let pre = "type T (a";
+            let t = format!("interface a.b\n{}{}: !)\n", pre, fill(c - 1 - pre.len() - 2));
+            cases.push(case_of(&t, &["long-line", "long-line:field-name"]));
+        }
+        // a long type name (any length)
+        let pre = "type T";
+        let t = format!("interface a.b\n{}{} !", pre, fill(c - 1 - pre.len() - 1));
+        cases.push(case_of(&t, &["long-line", "long-line:type-name"]));
+        // multi-byte white space in front (2- and 3-byte characters), then the long name
+        let pre = "type\u{a0}\u{3000}\u{2003} T";
+        let t = format!("# doc \u{1F600}\ninterface a.b\n{}{} !\n", pre, fill(c - 1 - pre.chars().count() - 1));
+        cases.push(case_of(&t, &["long-line", "long-line:multibyte"]));
+        // the error at the very end of a long last line (column = length + 1)
+        let t = format!("interface a.b\ntype T{}", fill(c - 1 - 6));
+        cases.push(case_of(&t, &["long-line", "long-line:eof"]));
+    }
+    // (5c) mixed line-ending conventions in one text, an error on every line
+    let mlines = ["# doc", "interface org.example.mixed", "# c", "type T (a: int,", "\tb: ?[]string)", "method M(x: T) -> ()", "error E ()"];
+    let meols = ["\n", "\r\n", "\r", "\u{2028}", "\n", "\r\n", "\u{2029}"];
+    for rot in 0..meols.len() {
+        for k in 0..mlines.len() {
+            let mut t = String::new();
+            for (i, l) in mlines.iter().enumerate() {
+                t.push_str(l);
+                if i == k {
+                    t.push_str(" !");
+                }
+                t.push_str(meols[(i + rot) % meols.len()]);
+            }
+            cases.push(case_of(&t, &["line-endings", "line-endings:mixed"]));
+        }
+    }
+    // (5d) a tight address-space limit: small valid and invalid texts
+    for i in 0..(if ctx.thorough { 120 } else { 24 }) {
+        let (_, frags) = gen_valid_text(rng, 3, 2, i % 3);
+        let text = if i % 2 == 0 { frags.concat() } else { mutate(rng, &frags).0 };
+        cases.push(Case { input: sx::tagged("idl-lim", vec![sx::xs(&text)]), tags: vec!["address-space-limit".into()] });
+    }
     // (6) a few near misses and valid texts as well (positions of ordinary syntax errors)
     for i in 0..(if ctx.thorough { 4000 } else { 800 }) {
         let (_, frags) = gen_valid_text(rng, 4, 2, i % 3);
@@ -1007,6 +1158,12 @@ impl Suite for IdlSuite {
             Some(l) if !l.is_empty() => l,
             _ => return sx::atom("bad-case"),
         };
+        if l[0].as_atom() == Some("idl-lim") && l.len() == 2 {
+            return match l[1].as_str() {
+                Some(t) => observe_limited(&t),
+                None => sx::atom("bad-case"),
+            };
+        }
         let (deep, text) = match (l[0].as_atom(), l.len()) {
             (Some("idl"), 2) => (false, l[1].as_str()),
             (Some("idl-deep"), 3) => (true, l[2].as_str()),
@@ -1036,6 +1193,36 @@ use std::sync::mpsc::{channel, Receiver, RecvTimeoutError, Sender};
 pub const DEADLINE_MS: u64 = 5000;
 const MAX_DEEP_TIMEOUTS: usize = 3;
 static DEEP_TIMEOUTS: AtomicUsize = AtomicUsize::new(0);
+
+/// parse on the calling thread under a tight address-space limit (soft limit only: restored afterwards)
+pub fn observe_limited(text: &str) -> Sx {
+    let vm_bytes = std::fs::read_to_string("/proc/self/statm")
+        .ok()
+        .and_then(|s| s.split_whitespace().next().and_then(|p| p.parse::<u64>().ok()))
+        .map(|pages| pages * 4096);
+    let mut old = libc::rlimit { rlim_cur: 0, rlim_max: 0 };
+    let have_old = unsafe { libc::getrlimit(libc::RLIMIT_AS, &mut old) } == 0;
+    let limited = match (vm_bytes, have_old) {
+        (Some(vm), true) => {
+            let want = vm + (48 << 20);
+            let cur = if old.rlim_max != libc::RLIM_INFINITY && want > old.rlim_max { old.rlim_max } else { want };
+            let new = libc::rlimit { rlim_cur: cur, rlim_max: old.rlim_max };
+            unsafe { libc::setrlimit(libc::RLIMIT_AS, &new) == 0 }
+        }
+        _ => false,
+    };
+    let obs = std::panic::catch_unwind(|| observe(text));
+    if limited {
+        unsafe { libc::setrlimit(libc::RLIMIT_AS, &old) };
+    }
+    match obs {
+        Ok(o) => o,
+        Err(e) => {
+            let msg = e.downcast_ref::<String>().cloned().or_else(|| e.downcast_ref::<&str>().map(|s| s.to_string())).unwrap_or_else(|| "?".into());
+            sx::tagged("panic", vec![sx::xs(&msg)])
+        }
+    }
+}
 
 struct Worker {
     tx: Sender<String>,
